@@ -4,6 +4,7 @@ Property theorems only.  Storage side: the ledger model (every ledger, every fla
 combination, every fault plan).  Cluster side: see Helm/Model/Cluster.lean (request log).
 -/
 import Helm.Model.Ledger
+import Helm.Lemmas.Cluster
 
 namespace Helm.Props.C06
 open Helm.Ledger
@@ -52,5 +53,31 @@ theorem uninstall_dry_run_writes_nothing (fl : UninstallFlags) (hd : fl.dryRun =
 /-- premises satisfiable, on a populated history -/
 example : (upgrade { dryRun := true, atomic := true, maxHistory := 1 } { wait := .fail } {} 5
     [⟨1, .superseded, 1⟩, ⟨2, .deployed, 2⟩]).1.writes = [] := by decide
+
+/-! ### cluster side: a dry run sends only reads (the ownership pre-flight) and changes nothing -/
+open Helm.Cluster in
+theorem install_dry_run_cluster (rel ns : String) (to force : Bool) (manifest : List Obj) (s : Store) :
+    (installCluster rel ns to force true manifest s).store = s ∧
+    ∀ e ∈ (installCluster rel ns to force true manifest s).log, e.isWrite = false := by
+  have hr := preflight_reads to rel ns (manifest.map (stamp rel ns)) s
+  unfold installCluster
+  simp only
+  split <;> rename_i hp <;> rw [hp] at hr
+  · exact ⟨rfl, hr⟩
+  · simp only [if_true]
+    exact ⟨trivial, hr⟩
+
+open Helm.Cluster in
+theorem upgrade_dry_run_cluster (rel ns : String) (to force : Bool) (current target : List Obj) (s : Store) :
+    (upgradeCluster rel ns to force true current target s).store = s ∧
+    ∀ e ∈ (upgradeCluster rel ns to force true current target s).log, e.isWrite = false := by
+  have hr := preflight_reads to rel ns ((target.map (stamp rel ns)).filter
+      (fun t => (current.find? (·.key = t.key)).isNone)) s
+  unfold upgradeCluster
+  simp only
+  split <;> rename_i hp <;> rw [hp] at hr
+  · exact ⟨rfl, hr⟩
+  · simp only [if_true]
+    exact ⟨trivial, hr⟩
 
 end Helm.Props.C06
